@@ -21,7 +21,9 @@ from ..runner import new_part, key_hash, open_switches
 
 RULE = ("(a) all target patterns of depth 1 (arity 1..3, leaf kinds name/attribute/subscript/slice, "
         "star at every position or absent) and depth 2 (one nested pattern) x every admissible source "
-        "length x every admissible source kind, enumerated completely; depth-3 patterns drawn by "
+        "length x every admissible source kind, enumerated completely (placement module / function / "
+        "class by rotation, and once more inside one of 16 further containers: closure, method, loop "
+        "body, branch, class in function, ...); depth-3 patterns drawn by "
         "Hypothesis; (b) the complete operator x target x operand-kind x placement matrix of "
         "augmented assignment, type-incompatible cells (original raises) discarded and counted. "
         "Each case under the 4 semantic configurations with alternating unparser (matrix) / all 8 "
@@ -215,7 +217,15 @@ def case_program(stmt, names, where):
         return PRE + "def FF():\n    %s\n    %s\nFF()\n" % (stmt, show)
     if where == "class":
         return PRE + "class KK:\n    %s\n    %s\n" % (stmt, show)
+    if where.startswith("nest:"):
+        from ..gen import nest
+        return PRE + "\n".join(nest._nest(where[5:], 7, [stmt, show])) + "\n"
     raise ValueError(where)
+
+
+def nest_placements():
+    from ..gen import nest
+    return ["nest:" + c for c in sorted(nest.CONTAINERS) if c not in ("module", "func", "class")]
 
 
 # ------------------------------------------------------------------ (b) augmented assignment
@@ -308,12 +318,17 @@ def _cfgs(i):
 def _pattern_shard(item):
     idx, nshards, quick = item
     part = new_part()
+    nests = nest_placements()
     for i, (tag, stmt, names, nt) in enumerate(pattern_cases()):
         if i % nshards != idx:
             continue
         where = ("module", "function", "class")[(i // nshards) % 3]
         cfgs = _cfgs(i) if not quick else _cfgs(i)[(i // 3) % 4:][:2]
         check_src(part, tag, case_program(stmt, names, where), nt, cfgs,
+                  "destructuring stores differ: %s (%s)" % (stmt, where))
+        # and once more inside one of the G-NEST containers (closure, method, loop body, branch, ...)
+        where = nests[(i // nshards) % len(nests)]
+        check_src(part, tag, case_program(stmt, names, where), nt, cfgs[:1],
                   "destructuring stores differ: %s (%s)" % (stmt, where))
     if idx == 0:
         for tag, src, nt in chained_cases():
